@@ -226,9 +226,31 @@ fn gen_unit_raw(prop: &str, tier: Tier, rng: &mut Rng) -> Vec<Case> {
             } else {
                 gen_view(rng, vars.len(), true)
             };
-            ops.push(Op::Optimise { obj, minimise: rng.chance(0.5), sat_unsat: rng.chance(0.5), interrupt: None });
+            // in a slice the optimisation is not the first call on the solver: a solve under
+            // assumptions, an (interrupted) assumption-based optimisation or a plain solve came
+            // before it. (LinearSatUnsat as an earlier call is left to C10: open finding KF-002.)
+            let history = rng.chance(0.3);
+            if history {
+                for _ in 0..rng.range(1, 2) {
+                    let op = match rng.below(4) {
+                        0 | 1 => Op::Assume { preds: gen_assumptions(rng, &vars, 3), core: rng.chance(0.3), interrupt: None },
+                        2 => Op::Optimise {
+                            obj: gen_view(rng, vars.len(), true),
+                            minimise: rng.chance(0.5),
+                            sat_unsat: false,
+                            interrupt: if rng.chance(0.6) { Some(rng.range(1, 40) as u64) } else { None },
+                        },
+                        _ => Op::Satisfy { interrupt: None },
+                    };
+                    ops.push(op);
+                }
+            }
+            // the termination condition fires inside the optimisation in a slice: the answer may
+            // then be Satisfiable / Unknown, never a wrong Optimal
+            let interrupt = if rng.chance(0.25) { Some(rng.range(1, 60) as u64) } else { None };
+            ops.push(Op::Optimise { obj, minimise: rng.chance(0.5), sat_unsat: rng.chance(0.5), interrupt });
             let br = if rng.chance(0.8) { BrancherSpec::random_sched(rng) } else { BrancherSpec::random_builtin(rng) };
-            vec![base_case(prop, "solve", Knobs::random(rng), br, ops, checks)]
+            vec![base_case(prop, if history { "history" } else { "solve" }, Knobs::random(rng), br, ops, checks)]
         }
         "C05" => {
             let sw = Swarm::draw(rng, &general_pool(), th);
@@ -375,7 +397,30 @@ fn gen_unit_raw(prop: &str, tier: Tier, rng: &mut Rng) -> Vec<Case> {
             let mut sw = Swarm::draw(rng, &general_pool(), th);
             sw.max_space = 4_000;
             sw.max_vars = 5;
-            let (vars, cons) = gen_model(rng, &sw);
+            // Every propagator gets its share of the budget: half of the units are built around
+            // one kind of constraint (plus at most two simple kinds that move bounds from
+            // elsewhere), a fifth are scheduling-shaped (cumulative under all its options).
+            let focus = rng.below(10);
+            let (vars, cons) = if focus < 5 {
+                let pool = general_pool();
+                let primary = *rng.pick(&pool);
+                let mut kinds = vec![primary];
+                for _ in 0..rng.below(3) {
+                    kinds.push(*rng.pick(&[Kind::LinLe, Kind::BinNe, Kind::BinLe, Kind::LinEq]));
+                }
+                kinds.retain(|k| pool.contains(k));
+                if kinds.is_empty() {
+                    kinds.push(primary);
+                }
+                sw.kinds = kinds;
+                sw.min_cons = 1;
+                sw.max_cons = 4;
+                gen_model(rng, &sw)
+            } else if focus < 7 && general_pool().contains(&Kind::Cumulative) {
+                gen_scheduling_model(rng, th)
+            } else {
+                gen_model(rng, &sw)
+            };
             let mut ops = model_ops(&vars, &cons);
             ops.push(final_solve_op(rng, &vars, &[1, 1, 1, 0, 2, 3, 4]));
             let br = if rng.chance(0.85) { BrancherSpec::random_sched(rng) } else { BrancherSpec::random_builtin(rng) };
@@ -645,7 +690,9 @@ pub fn run_unit(prop: &str, tier: Tier, seed: u64, want_sample: bool) -> UnitRes
     let mut rng = Rng::new(seed);
     let mut res = UnitResult::default();
     match prop {
-        "C11" => run_unit_c11(tier, &mut rng, want_sample, &mut res),
+        "C11" => run_unit_interrupt_sweep("C11", tier, &mut rng, want_sample, &mut res, false),
+        // a slice of C10: posting after a call that returned Unknown, for every poll index
+        "C10" if rng.chance(0.12) => run_unit_interrupt_sweep("C10", tier, &mut rng, want_sample, &mut res, true),
         "C06" => {
             let c = crate::proofcase::generate(prop, &mut rng, thorough(tier));
             absorb_any(&mut res, crate::anycase::AnyCase::Proof(c), want_sample);
@@ -740,15 +787,25 @@ fn absorb(res: &mut UnitResult, case: &Case, out: Outcome, want_sample: bool) {
 /// C11: fault enumeration. The uninterrupted twin gives the number of polls N of the operation;
 /// then a fresh identical run is interrupted at every poll index k in 0..N (sampled above 400),
 /// and the same solver is asked again with a clock that never fires.
-fn run_unit_c11(tier: Tier, rng: &mut Rng, want_sample: bool, res: &mut UnitResult) {
+/// The interrupt sweep: one model and operation, the termination condition firing at every poll
+/// index in turn, and the same solver asked again afterwards. With `post_between` a further
+/// constraint is posted between the interrupted call and the next one (C10: the solver stays
+/// usable after a call that returned Unknown).
+fn run_unit_interrupt_sweep(prop: &str, tier: Tier, rng: &mut Rng, want_sample: bool, res: &mut UnitResult, post_between: bool) {
     let th = thorough(tier);
-    let checks = lib_checks("C11");
+    let checks = lib_checks(prop);
     let sw = Swarm::draw(rng, &general_pool(), th);
     let (vars, cons) = gen_model(rng, &sw);
     let mut ops = model_ops(&vars, &cons);
     let n_model_ops = ops.len();
     let op = final_solve_op(rng, &vars, &[0, 1, 1, 3, 4]);
     ops.push(op.clone());
+    let between: Option<Con> = if post_between {
+        let mut g = ModelGen { rng, sw: &sw, vars: vars.clone(), planted: None };
+        g.constraint()
+    } else {
+        None
+    };
     let br = if rng.chance(0.8) { BrancherSpec::random_sched(rng) } else { BrancherSpec::random_builtin(rng) };
     let mut knobs = Knobs::random(rng);
     if matches!(op, Op::Optimise { sat_unsat: false, .. }) && !rng.chance(0.02) {
@@ -758,7 +815,7 @@ fn run_unit_c11(tier: Tier, rng: &mut Rng, want_sample: bool, res: &mut UnitResu
     // best solution found; every later call is affected. Outside a small slice the solver is not
     // asked again after such an interrupt (the answer at the interrupt itself is still judged).
     let resume = !matches!(op, Op::Optimise { sat_unsat: true, .. }) || rng.chance(0.05);
-    let twin = base_case("C11", "interrupt", knobs.clone(), br.clone(), ops.clone(), checks);
+    let twin = base_case(prop, "interrupt", knobs.clone(), br.clone(), ops.clone(), checks);
     let out = check_case(&twin);
     let n = out.polls_per_op.first().copied().unwrap_or(0);
     let inconclusive = out.stats.inconclusive > 0;
@@ -783,10 +840,13 @@ fn run_unit_c11(tier: Tier, rng: &mut Rng, want_sample: bool, res: &mut UnitResu
         ops_k[n_model_ops].set_interrupt(Some(k));
         // ask the same solver again; for a SAT-UNSAT optimisation the resumed call is the same
         // optimisation, for the others the same operation without a fault
+        if let Some(c) = &between {
+            ops_k.push(Op::Post(c.clone()));
+        }
         if resume {
             ops_k.push(op.clone());
         }
-        let case = base_case("C11", "interrupt", knobs.clone(), br.clone(), ops_k, checks);
+        let case = base_case(prop, "interrupt", knobs.clone(), br.clone(), ops_k, checks);
         let out = check_case(&case);
         absorb(res, &case, out, false);
         if res.violation.is_some() {
